@@ -1,6 +1,144 @@
+//! C01 — ProbMinHash estimates the probability Jaccard index without bias (statistical law monitor)
 use crate::common::*;
+use crate::gen::*;
+use crate::sk::*;
+use crate::stat::*;
+use probminhash::jaccard::compute_probminhash_jaccard;
+use rand::Rng as _;
+use serde_json::json;
+
+struct Cell {
+    name: String,
+    v: Pv,
+    hs: Hs,
+    entry: Entry,
+    m: usize,
+    spec: PairSpec,
+}
+
+fn entry_name(e: Entry) -> String {
+    format!("{:?}", e)
+}
+
+fn entries_for(v: Pv) -> Vec<Entry> {
+    match v {
+        Pv::P2 => vec![Entry::Item, Entry::Wset, Entry::HashMapStd],
+        Pv::P3 => vec![Entry::Item, Entry::Wset, Entry::IdxMap, Entry::HashMapStd],
+        Pv::P3a | Pv::P3aSha => vec![Entry::IdxMap, Entry::HashMapStd, Entry::Batches(3)],
+    }
+}
+
+fn build_cells(rep: &Report) -> Vec<Cell> {
+    let mut cells = Vec::new();
+    let mut rng = rng_from(subseed(rep.seed, "C01/cells", &[]));
+    let ms_all: Vec<usize> = rep.tier.pick(vec![2, 3, 4, 8, 16, 64, 256, 1024], vec![2, 3, 4, 8, 16, 64, 256, 1024, 4096]);
+    let ns: Vec<usize> = vec![2, 3, 10, 100, 500];
+    // fixed core: every variant x a few decisive shapes
+    let core: Vec<(&str, &str, usize, usize)> = vec![
+        ("equal", "partial_same_w", 100, 64),
+        ("geometric", "partial_diff_w", 10, 16),
+        ("one_heavy", "nested", 10, 2),
+        ("lognormal3", "partial_diff_w", 100, 256),
+        ("tiny_huge_mix", "partial_same_w", 10, 3),
+    ];
+    for v in ALL_PV {
+        for (k, (fam, ov, n, m)) in core.iter().enumerate() {
+            if rep.tier == Tier::Quick && k >= 3 && v != Pv::P3 {
+                continue;
+            }
+            let spec = pair(fam, ov, *n, &mut rng_from(subseed(1, "C01/core", &[k as u64])));
+            let e = entries_for(v)[k % entries_for(v).len()];
+            cells.push(Cell { name: format!("core/{}/{}/{}/m={}/{}", v.name(), "fnv", entry_name(e), m, spec.name), v, hs: Hs::Fnv, entry: e, m: *m, spec });
+        }
+    }
+    // seeded random selection from the product space
+    let nrand = rep.tier.pick(120, 900);
+    for i in 0..nrand {
+        let v = ALL_PV[i % 4];
+        let fam = WEIGHT_FAMILIES[rng.random_range(0..WEIGHT_FAMILIES.len())];
+        let ov = OVERLAPS[rng.random_range(0..OVERLAPS.len())];
+        let n = ns[rng.random_range(0..ns.len())].max(if ov == "identical" || ov == "scaled_copy" { 1 } else { 2 });
+        let mut m = ms_all[rng.random_range(0..ms_all.len())];
+        if n >= 500 && m > 1024 {
+            m = 1024;
+        }
+        let hs = if v != Pv::P3aSha && rng.random_range(0..4) == 0 { Hs::NoHash } else { Hs::Fnv };
+        let es = entries_for(v);
+        let e = es[rng.random_range(0..es.len())];
+        let spec = pair(fam, ov, n, &mut rng);
+        cells.push(Cell { name: format!("rand{}/{}/{:?}/{}/m={}/{}", i, v.name(), hs, entry_name(e), m, spec.name), v, hs, entry: e, m, spec });
+    }
+    // single item sets (n = 1): identical singleton
+    for v in ALL_PV {
+        let spec = PairSpec { name: "singleton/identical/n=1".into(), wa: vec![3.5], wb: vec![3.5] };
+        cells.push(Cell { name: format!("single/{}/m=8", v.name()), v, hs: Hs::Fnv, entry: entries_for(v)[0], m: 8, spec });
+    }
+    cells
+}
 
 pub fn run(rep: &mut Report) {
-    let _ = rep;
-    eprintln!("C01 not implemented yet");
+    rep.rule = "cell = (variant, hasher, entry point, m, weighted set pair); per trial fresh random u64 identifiers are drawn for the union, both sets are sketched by the real code and the trial statistics are: collision fraction X (target J_P from the O(n^2) closed form), (X-J_P)^2 (bound J_P(1-J_P)/m, one-sided), fraction of positions of sig(A) holding the heaviest item / the lightest half of the items (targets w/sum w). Staged z-test per statistic (3.5 sigma -> fresh stage x10 -> 5.5 sigma). A cell is non-trivial when 0 < J_P < 1; distinct cells counted by digest of (variant, entry, m, weights)".into();
+    let cells = build_cells(rep);
+    let t1: u64 = rep.tier.pick(10_000, 100_000);
+    for (ci, c) in cells.iter().enumerate() {
+        if !rep.want(&c.name) {
+            continue;
+        }
+        let n = c.spec.wa.len();
+        let j = jp(&c.spec.wa, &c.spec.wb);
+        let ia: Vec<usize> = (0..n).filter(|&i| c.spec.wa[i] > 0.).collect();
+        let ib: Vec<usize> = (0..n).filter(|&i| c.spec.wb[i] > 0.).collect();
+        let suma: f64 = ia.iter().map(|&i| c.spec.wa[i]).sum();
+        // heaviest item of A and the lighter half of A (as a group)
+        let heavy = *ia.iter().max_by(|&&x, &&y| c.spec.wa[x].partial_cmp(&c.spec.wa[y]).unwrap()).unwrap();
+        let mut sorted = ia.clone();
+        sorted.sort_by(|&x, &y| c.spec.wa[x].partial_cmp(&c.spec.wa[y]).unwrap());
+        let light: Vec<usize> = sorted[..(sorted.len() / 2).max(1)].to_vec();
+        let p_heavy = c.spec.wa[heavy] / suma;
+        let p_light: f64 = light.iter().map(|&i| c.spec.wa[i]).sum::<f64>() / suma;
+        let degenerate = j <= 1e-12 || j >= 1. - 1e-9;
+        let jt = if j >= 1. - 1e-9 { 1. } else if j <= 1e-12 { 0. } else { j };
+        // a statistic is tested only when enough non-degenerate trials are expected at stage 1 (else recorded only)
+        let enough = |p: f64| (t1 as f64) * (c.m as f64 * p.min(1. - p)).min(1.) >= 400.;
+        let mut targets = vec![
+            Target::new("collision_fraction", jt, if degenerate { Kind::Exact } else if enough(jt) { Kind::TwoSided } else { Kind::Info }),
+            Target::new("squared_error", jt * (1. - jt) / c.m as f64, if degenerate { Kind::Exact } else if enough(jt) { Kind::Upper } else { Kind::Info }),
+            Target::new("occupancy_heaviest", p_heavy, if ia.len() == 1 { Kind::Exact } else if enough(p_heavy) { Kind::TwoSided } else { Kind::Info }),
+        ];
+        let light_kind = if ia.len() > 1 && light.len() < ia.len() && enough(p_light) { Kind::TwoSided } else { Kind::Info };
+        targets.push(Target::new("occupancy_light_half", p_light, light_kind));
+        let ph = 0u64;
+        let seed = subseed(rep.seed, "C01/trials", &[ci as u64]);
+        let (rs, trials) = staged(seed, t1, 3, &targets, |rng, out| {
+            let ids = fresh_ids(rng, n, ph);
+            let mut a: Vec<(u64, f64)> = ia.iter().map(|&i| (ids[i], c.spec.wa[i])).collect();
+            let mut b: Vec<(u64, f64)> = ib.iter().map(|&i| (ids[i], c.spec.wb[i])).collect();
+            // insertion order is part of the trial randomness
+            shuffle(&mut a, rng);
+            shuffle(&mut b, rng);
+            let (sa, _) = pmh(c.v, c.hs, c.m, &a, c.entry, ph);
+            let (sb, _) = pmh(c.v, c.hs, c.m, &b, c.entry, ph);
+            let x = compute_probminhash_jaccard(&sa, &sb);
+            out[0] = x;
+            out[1] = (x - jt) * (x - jt);
+            let idh = ids[heavy];
+            out[2] = sa.iter().filter(|&&s| s == idh).count() as f64 / c.m as f64;
+            let mut lids: Vec<u64> = light.iter().map(|&i| ids[i]).collect();
+            lids.sort_unstable();
+            let cl = sa.iter().filter(|s| lids.binary_search(s).is_ok()).count();
+            out[3] = cl as f64 / c.m as f64;
+        });
+        let case = json!({"variant": c.v.name(), "hasher": format!("{:?}", c.hs), "entry": entry_name(c.entry), "m": c.m, "pair": c.spec.name, "J_P": j,
+            "wa": f64_json(&c.spec.wa[..n.min(12)]), "wb": f64_json(&c.spec.wb[..n.min(12)])});
+        if ci < 3 {
+            rep.sample(case.clone());
+        }
+        if !degenerate {
+            rep.distinct.insert(mix(&[c.v as u64, c.m as u64, digest_f64s(&c.spec.wa), digest_f64s(&c.spec.wb), fnv64(entry_name(c.entry).as_bytes())]));
+        }
+        record_cell(rep, "C01", &c.name, &rs, trials * 2, case);
+    }
+    collect_ticks(rep);
+    rep.assumptions.push("identifiers are fresh random u64 per trial, hashed by the crate's own hasher (Fnv / NoHash / Sha512_256); the sketchers are never re-seeded".into());
+    rep.assumptions.push("resolution per cell (7 standard errors of the last stage) is printed in coverage.cells; a bias below it is invisible".into());
 }
